@@ -196,8 +196,12 @@ func generation() string {
 			}
 		}
 		sort.Slice(gens, func(i, j int) bool { return gens[i].t.After(gens[j].t) })
+		// keep the three newest generations, and any generation used in the last two hours: a long check of another
+		// tree (a parallel run on a different working tree shares this scratch root) must not lose its directory
 		for i := 3; i < len(gens); i++ {
-			os.RemoveAll(gens[i].p)
+			if now.Sub(gens[i].t) > 2*time.Hour {
+				os.RemoveAll(gens[i].p)
+			}
 		}
 	})
 	return genDir
@@ -445,6 +449,10 @@ type shardResult struct {
 
 func runShard(c *check, bin, tier string, shard, nshards int, replay string, budget float64) (*shardResult, string, error) {
 	gen := generation()
+	os.MkdirAll(gen, 0o755)
+	if now := time.Now(); true {
+		os.Chtimes(gen, now, now) // mark the generation as in use
+	}
 	out := filepath.Join(gen, fmt.Sprintf("out_%s_%s_%d_%d.json", c.id, tier, shard, os.Getpid()))
 	os.Remove(out)
 	defer os.Remove(out)
